@@ -65,7 +65,7 @@ func c10KindAssertion(r *core.Report) {
 				// delegation to the deprecated opener (old format has no metadata): only under the old-format test
 				under := false
 				for _, fc := range g.FactsAt(rn) {
-					if fc.Truth && strings.Contains(strings.ToLower(core.ExprStr(fc.Expr)), "old") {
+					if fc.Truth && resultOfCall(op, fc.Expr, "IsFileOldFormat") {
 						under = true
 					}
 				}
@@ -123,10 +123,11 @@ func c10IdentityChain(r *core.Report) {
 	// the function-level running root
 	var rootVar types.Object
 	ast.Inspect(f.Body, func(n ast.Node) bool {
-		if vs, ok := n.(*ast.ValueSpec); ok && rootVar == nil {
+		// `var lastRootCid cid.Cid`: the one CID-typed variable declared without a value
+		if vs, ok := n.(*ast.ValueSpec); ok && rootVar == nil && len(vs.Values) == 0 {
 			for _, nm := range vs.Names {
-				if strings.Contains(strings.ToLower(nm.Name), "rootcid") {
-					rootVar = info.Defs[nm]
+				if o := info.Defs[nm]; o != nil && strings.HasSuffix(core.NamedTypeName(o.Type()), "cid.Cid") {
+					rootVar = o
 				}
 			}
 		}
@@ -189,9 +190,9 @@ func c10IdentityChain(r *core.Report) {
 			}
 			errSide := leadsToErrorOnly(g, f, siblingEdge(e))
 			switch {
-			case strings.Contains(s, "ep.Epoch()") && strings.Contains(ls, "epoch") && errSide:
+			case callsEpochGetter(info, e.Ast) && errSide:
 				epochEdge[e] = true
-			case core.Mentions(info, e.Ast, rootVar) && strings.Contains(ls, "rootcid") && errSide:
+			case core.Mentions(info, e.Ast, rootVar) && errSide:
 				rootEdge[e] = true
 			case strings.Contains(ls, "deprecated") || strings.Contains(s, "Version()"):
 				// the branch on which the index is of the old format (no metadata to compare)
@@ -213,7 +214,7 @@ func c10IdentityChain(r *core.Report) {
 				continue
 			}
 			nm := core.CalleeName(info, c)
-			isEpoch := strings.HasSuffix(nm, "Metadata).AssertEpoch") && strings.Contains(core.ExprStr(c.Args[0]), "ep.Epoch()")
+			isEpoch := strings.HasSuffix(nm, "Metadata).AssertEpoch") && callsEpochGetter(info, c.Args[0])
 			isRoot := strings.HasSuffix(nm, "Metadata).AssertRootCid") && core.ObjOf(info, c.Args[0]) == rootVar
 			if !isEpoch && !isRoot {
 				continue
@@ -335,8 +336,31 @@ func c10MetadataKeys(r *core.Report) {
 		a, b := strings.Join(keysIn(w), ","), strings.Join(keysIn(rd), ",")
 		r.Check(a == b && a != "", rule, "indexes#default-metadata-keys", posP(r, rd.Pos()), "setDefaultMetadata and getDefaultMetadata use the same keys: "+a, "setDefaultMetadata writes keys ["+a+"] but getDefaultMetadata reads ["+b+"]")
 		// codecs: epoch Uint64tob <-> BtoUint64, root Bytes <-> Cast
-		ws, rs := core.ExprStr(w.Body), core.ExprStr(rd.Body)
-		okCodec := strings.Contains(ws, "Uint64tob(metadata.Epoch)") && strings.Contains(rs, "BtoUint64(") && strings.Contains(ws, "RootCid.Bytes()") && strings.Contains(rs, "cid.Cast(")
+		// (decided on the resolved callees and the selected fields, not on how the parameters are spelled)
+		wEpoch, wRoot, rEpoch, rRoot := false, false, false, false
+		for _, c := range core.CallsIn(w.Body, true) {
+			nm := core.CalleeName(w.Pkg.TypesInfo, c)
+			if strings.HasSuffix(nm, "Uint64tob") && len(c.Args) == 1 {
+				if sel, ok := core.Unparen(c.Args[0]).(*ast.SelectorExpr); ok && sel.Sel.Name == "Epoch" {
+					wEpoch = true
+				}
+			}
+			if sel, ok := core.Unparen(c.Fun).(*ast.SelectorExpr); ok && sel.Sel.Name == "Bytes" {
+				if in, ok := core.Unparen(sel.X).(*ast.SelectorExpr); ok && in.Sel.Name == "RootCid" {
+					wRoot = true
+				}
+			}
+		}
+		for _, c := range core.CallsIn(rd.Body, true) {
+			nm := core.CalleeName(rd.Pkg.TypesInfo, c)
+			if strings.HasSuffix(nm, "BtoUint64") {
+				rEpoch = true
+			}
+			if strings.HasSuffix(nm, "go-cid.Cast") || strings.HasSuffix(nm, "cid.Cast") {
+				rRoot = true
+			}
+		}
+		okCodec := wEpoch && wRoot && rEpoch && rRoot
 		r.Check(okCodec, rule, "indexes#default-metadata-codecs", posP(r, rd.Pos()), "epoch and root CID are decoded with the inverse of the encoders used by the writer", "the metadata decoders are not the inverses of the encoders (epoch: Uint64tob/BtoUint64, root: Bytes/Cast)")
 	}
 	// sig-exists: writer keys (createAllIndexes + the standalone command) vs loader keys
@@ -624,4 +648,34 @@ func c10AssertGates(r *core.Report) {
 				"a header without the "+key+" entry is accepted: the index then carries no such identity and every comparison against it is vacuous")
 		}
 	}
+}
+
+// callsEpochGetter: the expression contains a call of (*Epoch).Epoch() - the number of the epoch being loaded.
+func callsEpochGetter(info *types.Info, n ast.Node) bool {
+	found := false
+	ast.Inspect(n, func(m ast.Node) bool {
+		if c, ok := m.(*ast.CallExpr); ok && core.CalleeName(info, c) == "main.(*Epoch).Epoch" {
+			found = true
+		}
+		return true
+	})
+	return found
+}
+
+// resultOfCall: e is a call of a function whose name ends in suffix, or a local assigned (once) from such a call.
+func resultOfCall(f *core.Func, e ast.Expr, suffix string) bool {
+	info := f.Pkg.TypesInfo
+	isCall := func(x ast.Expr) bool {
+		c, ok := core.Unparen(x).(*ast.CallExpr)
+		return ok && strings.HasSuffix(core.CalleeName(info, c), suffix)
+	}
+	if isCall(e) {
+		return true
+	}
+	if o := core.ObjOf(info, e); o != nil {
+		if d := singleDef(f, o); d != nil && isCall(d) {
+			return true
+		}
+	}
+	return false
 }
